@@ -127,19 +127,21 @@ theorem vrheProdStep_val (hG : ValidGroup G) (L Xj Aj : Card) (a : Int) (h1 : to
     ⟨x0, xp, by rw [xv, m1, i1v, b1v]⟩, ⟨y0, yp, by rw [yv, m2, i2v, b2v]⟩⟩
   simp [vrheProdStep, bind, Except.bind, pure, Except.pure, hb1, hb2, hi1, hi2]
 
-theorem vrheProduct_val (hG : ValidGroup G) (X Ak : List Card) (alpha : List Int)
-    (hX : ∀ j, toF G (X.getD j ⟨0, 0⟩).c1 ≠ 0 ∧ toF G (X.getD j ⟨0, 0⟩).c2 ≠ 0) :
-    ∀ (js : List Nat) (L : Card), (0 ≤ L.c1 ∧ L.c1 < G.p) → (0 ≤ L.c2 ∧ L.c2 < G.p) →
+theorem vrheProduct_val (hG : ValidGroup G) (X Ak : List Card) (alpha : List Int) :
+    ∀ (js : List Nat) (L : Card),
+    (∀ j ∈ js, toF G (X.getD j ⟨0, 0⟩).c1 ≠ 0 ∧ toF G (X.getD j ⟨0, 0⟩).c2 ≠ 0) →
+    (0 ≤ L.c1 ∧ L.c1 < G.p) → (0 ≤ L.c2 ∧ L.c2 < G.p) →
     ∃ L', vrheProduct G.p X Ak alpha js L = .ok (some L') ∧
       Val G L'.c1 (toF G L.c1 * (js.map fun j =>
         (toF G (X.getD j ⟨0, 0⟩).c1 ^ alpha.getD j 0)⁻¹ * toF G (Ak.getD j ⟨0, 0⟩).c1).prod) ∧
       Val G L'.c2 (toF G L.c2 * (js.map fun j =>
         (toF G (X.getD j ⟨0, 0⟩).c2 ^ alpha.getD j 0)⁻¹ * toF G (Ak.getD j ⟨0, 0⟩).c2).prod)
-  | [], L, r1, r2 => ⟨L, rfl, ⟨r1.1, r1.2, by simp⟩, ⟨r2.1, r2.2, by simp⟩⟩
-  | j :: js, L, r1, r2 => by
+  | [], L, _, r1, r2 => ⟨L, rfl, ⟨r1.1, r1.2, by simp⟩, ⟨r2.1, r2.2, by simp⟩⟩
+  | j :: js, L, hX, r1, r2 => by
     obtain ⟨L1, hL1, v1, v2⟩ := vrheProdStep_val hG L (X.getD j ⟨0, 0⟩) (Ak.getD j ⟨0, 0⟩)
-      (alpha.getD j 0) (hX j).1 (hX j).2
-    obtain ⟨L2, hL2, w1, w2⟩ := vrheProduct_val hG X Ak alpha hX js L1 ⟨v1.1, v1.2.1⟩ ⟨v2.1, v2.2.1⟩
+      (alpha.getD j 0) (hX j (by simp)).1 (hX j (by simp)).2
+    obtain ⟨L2, hL2, w1, w2⟩ := vrheProduct_val hG X Ak alpha js L1
+      (fun i hi => hX i (by simp [hi])) ⟨v1.1, v1.2.1⟩ ⟨v2.1, v2.2.1⟩
     refine ⟨L2, ?_, ⟨w1.1, w1.2.1, ?_⟩, ⟨w2.1, w2.2.1, ?_⟩⟩
     · simp only [vrheProduct, bind, Except.bind, hL1, hL2]
     · rw [w1.2.2, v1.2.2, List.map_cons, List.prod_cons]; ring
@@ -147,7 +149,7 @@ theorem vrheProduct_val (hG : ValidGroup G) (X Ak : List Card) (alpha : List Int
 
 /-- `vrheFinal` holds when the product equals `(g^v, h^v)` in the field -/
 theorem vrheFinal_ok (hG : ValidGroup G) (S : State) (hS : StateOk G S) (X Ak : List Card) (alpha : List Int) (v : Int)
-    (hX : ∀ j, toF G (X.getD j ⟨0, 0⟩).c1 ≠ 0 ∧ toF G (X.getD j ⟨0, 0⟩).c2 ≠ 0)
+    (hX : ∀ j < alpha.length, toF G (X.getD j ⟨0, 0⟩).c1 ≠ 0 ∧ toF G (X.getD j ⟨0, 0⟩).c2 ≠ 0)
     (hv : v.natAbs < G.q.natAbs)
     (h1 : ((List.range alpha.length).map fun j =>
       (toF G (X.getD j ⟨0, 0⟩).c1 ^ alpha.getD j 0)⁻¹ * toF G (Ak.getD j ⟨0, 0⟩).c1).prod
@@ -157,8 +159,8 @@ theorem vrheFinal_ok (hG : ValidGroup G) (S : State) (hS : StateOk G S) (X Ak : 
         = toF G S.h ^ v) :
     vrheFinal S X Ak alpha v = .ok true := by
   have hp1 := one_lt_p hG
-  obtain ⟨L, hL, v1, v2⟩ := vrheProduct_val hG X Ak alpha hX (List.range alpha.length) ⟨1, 1⟩
-    ⟨by norm_num, hp1⟩ ⟨by norm_num, hp1⟩
+  obtain ⟨L, hL, v1, v2⟩ := vrheProduct_val hG X Ak alpha (List.range alpha.length) ⟨1, 1⟩
+    (fun j hj => hX j (List.mem_range.mp hj)) ⟨by norm_num, hp1⟩ ⟨by norm_num, hp1⟩
   obtain ⟨r1, hr1, a0, ap, r1v⟩ := fpowm_val hG S.tabG G.g v hS.tabG (g_ne hG) hv
   obtain ⟨r2, hr2, b0, bp, r2v⟩ := fpowm_val hG S.tabH S.h v hS.tabH (h_ne hG S hS) hv
   have e1 : L.c1 = r1 := eq_of_toF_eq hG ⟨v1.1, v1.2.1⟩ ⟨a0, ap⟩ (by
